@@ -129,6 +129,12 @@ def mutations(rnd, f, full):
     out.append(("Hm2-include-first", "#include <unistd.h>\n" + join(t)))
     out.append(("Hm3-empty-line-first", "\n" + join(t)))
     out.append(("Hm4-line-comments", join("//" + l[2:-2] for l in t)))
+    out.append(("Hm2-line-comment-first", "// my file\n" + join(t)))
+    out.append(("Hm2-indented-comment-first", "\t/* my file */\n" + join(t)))
+    for k in (range(11) if full else sorted(rnd.sample(range(11), 2))):
+        m = list(t)
+        m[k] = "//" + t[k][2:-2]
+        out.append(("Hm4-line-%d-as-line-comment" % (k + 1), join(m)))
     mids = [l[2:-2] for l in t]
     out.append(("Hm5-one-block", "/*" + "**\n**".join(mids) + "*/\n"))
     ks = range(11) if full else sorted(rnd.sample(range(11), 3))
@@ -164,7 +170,10 @@ def bodies(rnd, n_family):
            ("code-directly", "b.c", "int\tg_x;\n"),
            ("preprocessor-directly", "c.c", "#include <unistd.h>\n\nint\tmain(void)\n{\n\treturn (0);\n}\n"),
            ("block-comment-then-code", "d.c", "/* note */\n" + MIN_BODY),
-           ("two-block-comments-then-code", "e.c", "/* one */\n/*\n** two\n*/\n" + MIN_BODY)]
+           ("two-block-comments-then-code", "e.c", "/* one */\n/*\n** two\n*/\n" + MIN_BODY),
+           ("line-comment-first", "f.c", "// note\n" + MIN_BODY),
+           ("indented-comment-first", "g.c", "\t/* note */\n" + MIN_BODY),
+           ("block-then-line-comment", "j.c", "/* one */\n// two\n" + MIN_BODY)]
     for _ in range(n_family):
         name, src = family.program(rnd)
         assert src.startswith(HDR)
@@ -172,8 +181,6 @@ def bodies(rnd, n_family):
     return out
 
 
-# bodies that start with a comment which does not begin with a block comment in column 1 (finding C13-comment-after-header)
-COMMENT_FIRST = [("line-comment-first", "f.c", "// note\n" + MIN_BODY), ("indented-comment-first", "g.c", "\t/* note */\n" + MIN_BODY)]
 # bodies without any statement besides comments (finding C13-comments-only)
 COMMENTS_ONLY = [("empty", "h.c", ""), ("block-comment-only", "i.c", "/* nothing else */\n")]
 
@@ -353,8 +360,8 @@ def run(run, tier, seed, replay=None):
         if "text" in d:
             regex_texts.append(d["text"])
     else:
-        nf = 24 if quick else 220
-        bds = bodies(rnd, 3 if quick else 24)
+        nf = 16 if quick else 120
+        bds = bodies(rnd, 3 if quick else 10)
         # corpus first: the repository's own header, the family's programs as they are
         for kind, name, body in bds:
             cases.append(("well-formed", kind, name, HDR + body, 0, None, None))
@@ -368,16 +375,15 @@ def run(run, tier, seed, replay=None):
             muts = mutations(rnd, f, full)
             for lab, text in muts:
                 regex_texts.append(text)
-            sel = bds if full else [bds[0]] + rnd.sample(bds[1:], 2 if quick else 3)
+            sel = [bds[0]] + rnd.sample(bds[1:], 5 if full else (2 if quick else 3))
             for kind, name, body in sel:
                 cases.append(("well-formed", kind, name, t + body, 0, None, f))
                 for lab, text in (muts if (full or kind == "minimal") else rnd.sample(muts, 4)):
                     cases.append((lab, kind, name, text + body, 1, None, f))
             if i % 4 == 0:
-                for kind, name, body in COMMENT_FIRST:
-                    cases.append(("well-formed", kind, name, t + body, 0, "C13-comment-after-header", f))
-                    lab, text = rnd.choice([m for m in muts if m[0][:3] in ("Hm5", "Hm6", "Hm7", "Hm8")])
-                    cases.append((lab, kind, name, text + body, 1, None, f))
+                # (the former finding C13-comment-after-header is repaired: comment-first bodies are ordinary bodies
+                #  above; a well-formed header flagged because of them is a plain VIOLATION again)
+                cases.append(("well-formed", "line-comment-only", "k.c", t + "// nothing else\n", 0, None, f))
                 for kind, name, body in COMMENTS_ONLY:
                     cases.append(("well-formed", kind, name, t + body, 0, None, f))
                     if body == "":
@@ -462,8 +468,10 @@ def run(run, tier, seed, replay=None):
     return run.finish(len(b.theorems) or 23, disc,
                       "fields over letters/digits/._-@+#: (+ other punctuation, blanks, non-ASCII, keyword-like names, empty and "
                       "over-long values; never newline or `*`; date+time <= 31 characters without blanks) x {well-formed, Hm1..Hm8 "
+                      "variants incl. a // comment above the header and single lines written as //; "
                       "variants} x bodies {minimal, code directly, preprocessor directly, block comment(s) then code, programs of "
-                      "the family G (.c and .h)} (+ comment-first and comments-only bodies for the two findings); per case: the "
+                      "the family G (.c and .h), // or indented comment directly below the header} (+ comments-only bodies for the "
+                      "finding C13-comments-only); per case: the "
                       "INVALID_HEADER count of the implementation (0 / exactly 1), the generated state machine replayed in Coq on "
                       "the recorded events, the expression in Coq vs the source's own check_header on all header texts and "
                       "near-misses; non-trivial = the case uses random fields",
